@@ -8,6 +8,17 @@ import numpy as np
 H, W, FPS = 2, 3, 5.0
 
 
+class _CountingBytes(io.BytesIO):
+    """counts what the reader pulls out of the decoder: importing a video must not decode anything"""
+
+    total = 0
+
+    def read(self, *a):
+        b = super().read(*a)
+        _CountingBytes.total += len(b)
+        return b
+
+
 class _FakePipe:
     """stands in for subprocess.Popen([ffmpeg ...]): delivers raw rgb24 frames k, k+1, ... where k comes from -ss"""
 
@@ -20,7 +31,7 @@ class _FakePipe:
         _FakePipe.opened.append(start)
         n = _FakePipe.n_frames
         data = b"".join(bytes([k % 251]) * (H * W * 3) for k in range(start, n))
-        self.stdout = io.BytesIO(data)
+        self.stdout = _CountingBytes(data)
         self.stderr = None
         self.stdin = None
 
@@ -90,7 +101,13 @@ def check_video_landmarks():
         infos = {"duration": n_frames / FPS, "width": W, "height": H, "n_frames": n_frames, "fps": FPS}
         _FakePipe.n_frames = n_frames
         with mock.patch.object(mv.sp, "Popen", _FakePipe), mock.patch.object(mv, "video_infos_ffprobe", lambda p: dict(infos)):
+            _CountingBytes.total = 0
             ll = mio.import_video(vid, normalize=False)
+            if _CountingBytes.total:
+                return {"what": "import_video decoded %d frame(s) before any element of the lazy list was read" % (_CountingBytes.total // (H * W * 3))}
+            derived = [ll[::-1], ll.map(lambda im: im), ll + ll, ll.repeat(2), ll.copy()]
+            if _CountingBytes.total or any(len(x) not in (n_frames, 2 * n_frames) for x in derived):
+                return {"what": "slicing / mapping / concatenating / repeating / copying the imported video decoded frames"}
             if len(ll) != n_frames:
                 return {"what": "import_video gives a lazy list of length %d for a %d-frame video" % (len(ll), n_frames)}
             for k in (2, 0, 3, 1, 2):
